@@ -92,7 +92,9 @@ def compile(policy: dict[str, Any]) -> Any:
     # Map actions -> rules (stable order). '*' kept separately and appended last.
     by_action: dict[str, list[dict[str, Any]]] = {}
     star_rules: list[dict[str, Any]] = []
-    for rule in rules:
+    order: dict[int, int] = {}  # id(rule) -> position in the document
+    for pos, rule in enumerate(rules):
+        order.setdefault(id(rule), pos)
         acts = _actions(rule)
         if not acts:
             continue
@@ -123,6 +125,9 @@ def compile(policy: dict[str, Any]) -> Any:
             if rid not in seen:
                 candidates.append(r)
                 seen.add(rid)
+
+        # Keep document order: it decides first-applicable and which rule id is reported
+        candidates.sort(key=lambda r: order.get(id(r), 0))
 
         # Put candidates into buckets and PICK ONLY the most specific non-empty bucket
         buckets: list[list[dict[str, Any]]] = [[], [], [], []]
